@@ -53,7 +53,8 @@ InitWorld ==
       fac  |-> [addr |-> FAC, owner |-> "own", pair_code |-> 2, token_code |-> 4,
                 native |-> ("ua" :> 1 @@ "ub" :> 0), reg |-> <<>>],
       router |-> RTR,
-      nextc |-> 9 ]
+      nextc |-> 9,
+      light |-> FALSE ]
 
 VARIABLES w, last, steps
 vars == <<w, last, steps>>
